@@ -150,6 +150,12 @@ func (cb *cbox) allocationEvent(name string, svc *v1.Service, pre *boxPre, snap 
 			cb.c.Count("event:lower-rank-pool-had-address")
 			if !dualPrefer {
 				cb.c.Violation("auto:priority-inverted", fmt.Sprintf("%s was allocated %v from pinned pool %s (priority %d) although pinned pool(s) %v of better priority had an admissible address", name, post.IPs, pn, p.Priority, better), nil)
+			} else {
+				for _, bn := range better {
+					if preWorld.poolGivesFamiliesOf(model[bn], &req, post.IPs, true) {
+						cb.c.Violation("auto:priority-inverted:prefer-dual-stack", fmt.Sprintf("PreferDualStack %s was allocated %v from pinned pool %s (priority %d) although pinned pool %s of better priority had available addresses of the same families", name, post.IPs, pn, p.Priority, bn), nil)
+					}
+				}
 			}
 		}
 	} else {
@@ -322,6 +328,13 @@ func (cb *cbox) quiescentChecks(prev *boxQuiet, epochEvents []string) {
 			}
 			if !same {
 				continue // the stored pool is a newer version the controller has not accepted (yet)
+			}
+			if at, ok := cb.notified[p.Name]; ok {
+				cb.c.Eval()
+				cb.c.Count("pool-counter-notifications-checked")
+				if at != ctr {
+					cb.c.Violation("pool-counters-changed-after-last-notification", fmt.Sprintf("pool %s: the counters read at its last change notification were %v, they are %v now: a status fetcher woken by that notification reports stale usage and nothing wakes it again", p.Name, at, ctr), nil)
+				}
 			}
 			cb.c.Eval()
 			cb.c.Count("pool-status-resources-checked")
